@@ -401,6 +401,27 @@ impl Gen {
           let imap = self.map_json(&isegs, ins, inn, ifirst);
           let name = if self.rng.gen_bool(0.85) { FILES[first % 3] } else { "other.js" };
           let osrc: Vec<Value> = if self.rng.gen_bool(0.5) { vec![name_json(&x)] } else { vec![] };
+          // wild outer maps: point segments into the inner source at places
+          // its map covers, with name indices beyond the names table
+          let mut map = map;
+          if wild && self.rng.gen_bool(0.6) {
+            let xl = Self::lines_of(&x);
+            let mut osegs = segs.clone();
+            for sg in osegs.iter_mut() {
+              if sg.2 >= 0 && self.rng.gen_bool(0.7) {
+                sg.2 = 0;
+                if !xl.is_empty() {
+                  let li = self.rng.gen_range(0..xl.len());
+                  sg.3 = (li + 1) as i64;
+                  sg.4 = self.rng.gen_range(0..xl[li].len().max(1)) as i64;
+                }
+                if self.rng.gen_bool(0.5) {
+                  sg.5 = nn as i64 + self.rng.gen_range(0..2);
+                }
+              }
+            }
+            map["m"] = bytes_json(&encode_segs(&osegs));
+          }
           json!({"k": "sms", "b": name_json(&t), "name": name_json(name),
                  "map": map, "inner": [imap], "osrc": osrc, "remove": self.rng.gen_bool(0.3)})
         } else {
